@@ -475,6 +475,9 @@ def _mk_decimal(sign, digits, exponent):
 
         def __round__(self, n=None):      # stub: the rounded value is not inspected by this obligation
             return self
+
+        def quantize(self, *a, **k):      # (likewise: completing the value to d places)
+            return self
     return D(0)
 
 
